@@ -730,6 +730,12 @@ func init() {
 			js = append(js, mk(sprintf("c09.mode%d.pre%d", mode, pre), rootPkg, "ZZ_C09_LoadVsWrite", map[string]int{"mode": mode, "canary": 0},
 				func(b *Bounds) { b.Unwind = 60; b.Preempt = pre; b.Race = true; b.MaxPaths = 6000000; b.MaxWallS = 2400 }))
 		}
+		xp := 2
+		if tier == "thorough" {
+			xp = 3
+		}
+		js = append(js, mk(sprintf("c09.reload_vs_expired_invalidation.pre%d", xp), rootPkg, "ZZ_C09_ReloadVsExpiredInvalidation", nil,
+			func(b *Bounds) { b.Unwind = 140; b.Preempt = xp; b.Race = true; b.MaxPaths = 6000000; b.MaxWallS = 2400 }))
 		c := mk("c09.canary", rootPkg, "ZZ_C09_LoadVsWrite", map[string]int{"mode": 0, "canary": 1}, func(b *Bounds) { b.Unwind = 60; b.Preempt = 1; b.Race = true })
 		c.Canary = "c09.canary"
 		return append(js, c)
